@@ -41,12 +41,20 @@ namespace Kskm.Xml
 structure GlueSwitches where
   wrapsSingleSigner : Bool
   wrapsSingleResponseBundle : Bool
+  /-- request bundles sorted by (expiration, inception, id) (true) or, stably, by expiration only
+      (false: pinned tree, finding F8) -/
+  sortsRequestBundlesByTriple : Bool := true
+  /-- response bundles sorted by (expiration, inception, id) (true) or left in document order
+      (false: pinned tree, finding F8) -/
+  sortsResponseBundles : Bool := true
   deriving DecidableEq, Repr
 
 /-- the glue of /repo's working tree -/
 def pyGlueSwitches : GlueSwitches :=
   { wrapsSingleSigner := KskmGen.wrapsSingleSigner
-    wrapsSingleResponseBundle := KskmGen.wrapsSingleResponseBundle }
+    wrapsSingleResponseBundle := KskmGen.wrapsSingleResponseBundle
+    sortsRequestBundlesByTriple := KskmGen.sortsRequestBundlesByTriple
+    sortsResponseBundles := KskmGen.sortsResponseBundles }
 
 /-! ### Python's dynamic operations on the parsed tree -/
 
@@ -262,10 +270,21 @@ def requestBundleOf (gs : GlueSwitches) (bundle : XVal) : Res Bundle := do
 def sortByExpiration (l : List Bundle) : List Bundle :=
   l.mergeSort (fun a b => decide (a.expiration ≤ b.expiration))
 
+/-- the sort key `(x.expiration, x.inception, x.id)` compared as Python compares tuples:
+    lexicographically, strings by code point -/
+def bundleKeyLe (a b : Bundle) : Bool :=
+  decide (a.expiration < b.expiration) ||
+    (decide (a.expiration = b.expiration) &&
+      (decide (a.inception < b.inception) ||
+        (decide (a.inception = b.inception) && decide (a.id ≤ b.id))))
+
+/-- `sorted(res, key=lambda x: (x.expiration, x.inception, x.id))` — stable -/
+def sortByKey (l : List Bundle) : List Bundle := l.mergeSort bundleKeyLe
+
 /-- `request_bundles_from_list_of_dicts(bundles)` -/
 def requestBundlesOf (gs : GlueSwitches) (bundles : List XVal) : Res (List Bundle) := do
   let l ← bundles.mapM (requestBundleOf gs)
-  pure (sortByExpiration l)
+  pure (if gs.sortsRequestBundlesByTriple then sortByKey l else sortByExpiration l)
 
 /-- the optional `timestamp` — looked for among the attributes of `KSR` (finding F13) -/
 def timestampOf (attrs : XVal) : Res (Option Int) :=
@@ -304,8 +323,9 @@ def responseBundleOf (bundle : XVal) : Res Bundle := do
 /-- `responsebundles_from_list_of_dicts(…)` as `response_from_xml` calls it.  On the pinned tree there is
     NO single-vs-list handling (finding F12): the list comprehension runs over whatever it is given — the
     KEYS of a single bundle's dict.  The repaired `response_from_xml` wraps a non-list first. -/
-def responseBundlesOf (gs : GlueSwitches) (v : XVal) : Res (List Bundle) :=
-  (if gs.wrapsSingleResponseBundle then v.asList else v.iter).mapM responseBundleOf
+def responseBundlesOf (gs : GlueSwitches) (v : XVal) : Res (List Bundle) := do
+  let l ← (if gs.wrapsSingleResponseBundle then v.asList else v.iter).mapM responseBundleOf
+  pure (if gs.sortsResponseBundles then sortByKey l else l)
 
 /-- `response_from_xml` after `parse_ksr` -/
 def responseFromDict (gs : GlueSwitches) (data : XVal) : Res Response := do
